@@ -110,7 +110,7 @@ SPEC = {
                 "option sets, TBB/non-TBB builds, TBB thread limits, affinity masks and background load (functional determinism monitor with evidence of "
                 "the number of worker threads observed), plus exact oracles for make_filtration_non_decreasing, prune_above_filtration and the extended "
                 "filtration (all label universes short of the largest Vertex_handle, junk values above dimension 0, after removals, the empty complex), "
-                "reset_filtration, the documented tie order, int and absent filtration values, a build with GUDHI_CHECK live; independent trees on 8 "
+                "reset_filtration, the cubical filtration order across builds, int and absent filtration values (the documented tie order and the numeric encoding of the extended filtration are recorded, not required), a build with GUDHI_CHECK live; independent trees on 8 "
                 "threads under ThreadSanitizer. Sampled inputs and schedules; held-on-what-was-observed.",
         "note": "TSan/helgrind are blind to the prebuilt libtbb, so races inside parallel_sort that never change the output are out of reach; trusted: oracle::ComplexModel",
         "technique": "runtime monitoring: reference-model oracle + schedule-perturbed determinism monitor, ASan/UBSan and ThreadSanitizer builds",
